@@ -33,7 +33,8 @@ Inductive site :=
 | PSignMetaNil       (* signWitnessTx: cacheMeta[hash].Height with a nil block meta *)
 | PAddIndex          (* addTxIn: prevTx.TxOut[txIn.PreviousOutPoint.Index] *)
 | PAddBlockNil       (* addTxIn: block.Height *)
-| PFindMaNil         (* findEligibleUtxos: ma.ScriptAddress() with ma == nil *)
+| PFindMaNil         (* findEligibleUtxos: am.Address(addr) / ma.ScriptAddress() with am == nil (second read of the current keystore) *)
+| PSignScriptCurNil  (* signWitnessTx, script closure: acctM.Address(addrStr) with acctM == nil *)
 | PPubkeyCurNil      (* GetAllAddressesWithPubkey: w.ksmgr.CurrentKeystore().ManagedAddresses() *)
 | PMas0              (* NewAddress: mas[0] *)
 | PSelectSlice       (* selectRelatedTx: h.Data[height][len(h.Data[height])-rest:] *)
@@ -286,4 +287,5 @@ End Prologue.
 Definition is_space (c : Z) : bool := (c =? 32) || ((9 <=? c) && (c <=? 13)).
 Fixpoint trim_left_sp (s : str) : str :=
   match s with c :: r => if is_space c then trim_left_sp r else s | [] => [] end.
-Definition trim_ascii (s : str) : str := rev (trim_left_sp (rev (trim_left_sp s))).
+(* rev_append: the linear-time reversal (the strings of the exploration are up to 10 000 characters long) *)
+Definition trim_ascii (s : str) : str := rev_append (trim_left_sp (rev_append (trim_left_sp s) [])) [].
